@@ -55,6 +55,11 @@ func UnaryAlphabet() []Tok {
 	return []Tok{Term(Word("a")), Term(Int(2)), Sym(":"), Sym("("), Sym(")"), Sym("+"), Sym("-"), Sym("~"), Sym("^"), Kw("NOT", "NOT"), RawTerm("nan")}
 }
 
+// CmpAlphabet focuses on comparisons and the = spelling of a field (10 tokens).
+func CmpAlphabet() []Tok {
+	return []Tok{Term(Word("a")), Term(Int(5)), Term(Quoted("q")), Sym(":"), Sym(">"), Sym("<"), Sym("="), Sym("("), Sym(")"), Sym("~")}
+}
+
 // EnumSeqs calls fn with every token sequence over the alphabet of length 1..maxLen,
 // restricted to the sequences of this shard (round robin by running index). The
 // slice passed to fn is reused. It returns the number of sequences of all shards.
